@@ -233,6 +233,15 @@ def run(rep: Report, tier: str) -> None:
 				ok = v.value is False
 			rp.check(ok, f'{n.targets[0].value.id}.{n.targets[0].attr}', (ENTRY, n.lineno), f'`{unparse(n)}` makes a restored position field depend on {sorted(names - entry_names) or sorted(keys - {"source_map"}) or "a constant that hides the stored span"}: EntryOfLark.source_map of the restored tree then differs from the span stored by __dumps (e.g. a childless tree such as `pass` or `[]` loses its span)', unparse(n))
 
+	# every tree built on the load side carries the restored Meta: a lark.Tree constructed without one has an empty Meta, and the view answers
+	# (0, 0)..(0, 0) for it — the root rebuilt by `loads` itself included (`Tree(root['name'], [children...])` loses the span of the whole module)
+	ser_cls = loads.cls
+	built = [(g, c_) for defs_ in (ser_cls.methods.values() if ser_cls is not None else []) for g in defs_ if 'load' in g.name for c_ in walk_no_nested(g.node) if isinstance(c_, ast.Call) and unparse(c_.func) in ('lark.Tree', 'Tree')]
+	if not built:
+		rp.skip('tree-constructed-with-meta', (ENTRY, 1), 'no lark.Tree(...) construction on the load side of Serialization')
+	for g, c_ in built:
+		has_meta = len(c_.args) >= 3 or any(kw.arg == 'meta' for kw in c_.keywords)
+		rp.check(has_meta, f'{g.name}:tree-constructed-with-meta', (ENTRY, c_.lineno), f'`{unparse(c_)[:80]}` builds a restored tree without its Meta: the stored source_map of that entry is never read back, EntryOfLark.source_map answers (0, 0)..(0, 0) for it — for the root of the module every error reported on the Entrypoint loses its quotation after a cache hit while a fresh parse quotes line 1', unparse(c_)[:100])
 	# who else reads the raw lark objects? (Entry.source consumers)
 	src_users = []
 	for rel in idx.all_py(('rogw',)):
